@@ -53,8 +53,15 @@ def sh(cmd, timeout=None, cwd=None, env=None):
 # Coq side
 # --------------------------------------------------------------------------
 class BuildLock:
+    """Exclusive lock on coq/.build.<name>.lock.  'global' protects _CoqProject / Makefile
+    regeneration (short); one lock per make target set serialises builds of the same files
+    while builds of different properties run concurrently."""
+
+    def __init__(self, name="global"):
+        self.name = re.sub(r"[^A-Za-z0-9_.-]", "_", name)[:80]
+
     def __enter__(self):
-        self.f = open(COQ / ".build.lock", "w")
+        self.f = open(COQ / (".build.%s.lock" % self.name), "w")
         fcntl.flock(self.f, fcntl.LOCK_EX)
         return self
 
@@ -75,16 +82,24 @@ def gen_coqproject():
     return False
 
 
+# memory ceiling for any single coqc started by a build (a runaway vm_compute / tactic must
+# not take the machine down): address-space limit in kB
+COQ_VMEM_KB = int(os.environ.get("IBLNPX_COQ_VMEM_KB", str(14 * 1024 * 1024)))
+
+
 def coq_make(targets, timeout=3000):
     """Full .vo build of the given targets (and their dependencies)."""
-    with BuildLock():
+    with BuildLock("global"):
         changed = gen_coqproject()
         if changed or not (COQ / "Makefile").exists():
             rc, out = sh("coq_makefile -f _CoqProject -o Makefile", cwd=COQ, timeout=120)
             if rc != 0:
                 return False, out
-        rc, out = sh(["timeout", str(timeout), "make", "-j%d" % NCPU] + list(targets),
-                     cwd=COQ, timeout=timeout + 30)
+    key = "all" if not targets else "_".join(sorted({t.split("/")[0] for t in targets}))
+    with BuildLock(key):
+        cmd = "ulimit -v %d; exec timeout %d make -j%d %s" % (
+            COQ_VMEM_KB, timeout, NCPU, " ".join(targets))
+        rc, out = sh(["bash", "-c", cmd], cwd=COQ, timeout=timeout + 30)
         return rc == 0, out
 
 
@@ -125,8 +140,8 @@ def print_assumptions(prop, module="Props", names=None, timeout=600):
             lines.append("Print Assumptions %s." % n)
         lines.append('Goal True. idtac "@@END". exact I. Qed.')
         f.write_text("\n".join(lines) + "\n")
-        rc, out = sh(["timeout", str(timeout), "coqc", "-Q", str(COQ), "IBL", str(f)],
-                     cwd=gen, timeout=timeout + 30)
+        rc, out = sh(["bash", "-c", "ulimit -v %d; exec timeout %d coqc -Q %s IBL %s" % (
+            COQ_VMEM_KB, timeout, COQ, f)], cwd=gen, timeout=timeout + 30)
         if rc != 0:
             raise RuntimeError(out)
         res = {}
@@ -149,7 +164,7 @@ def coq_run_file(prop, text, timeout=900, stack_unlimited=True):
     try:
         f = gen / "Cases.v"
         f.write_text(text)
-        cmd = "ulimit -s unlimited 2>/dev/null; timeout %d coqc -Q %s IBL %s" % (timeout, COQ, f)
+        cmd = "ulimit -s unlimited 2>/dev/null; ulimit -v %d; timeout %d coqc -Q %s IBL %s" % (COQ_VMEM_KB, timeout, COQ, f)
         rc, out = sh(["bash", "-c", cmd], cwd=gen, timeout=timeout + 30)
         if rc != 0:
             raise RuntimeError("coqc failed (rc=%s):\n%s" % (rc, out[-4000:]))
@@ -217,7 +232,7 @@ class Extracted:
         if self.exe.exists() and self.exe.stat().st_mtime > vo.stat().st_mtime and \
                 self.exe.stat().st_mtime > (VERIF / "harness" / "driver.ml").stat().st_mtime:
             return
-        with BuildLock():
+        with BuildLock("extract_" + self.prop):
             self.dir.mkdir(parents=True, exist_ok=True)
             (self.dir / "Extract.v").write_text(
                 EXTRACT_V % {"prop": self.prop, "module": self.module, "fn": self.fn})
